@@ -49,6 +49,9 @@ func init() {
 	reg[uintptr]("uintptr")
 	reg[float32]("float32")
 	reg[float64]("float64")
+	reg[kit.NInt16]("NInt16")
+	reg[kit.NUint8]("NUint8")
+	reg[kit.NFloat32]("NFloat32")
 }
 
 func Check(c *Case) kit.Result {
@@ -108,6 +111,10 @@ func runGrown[T signal.SignalTypes](c *Case) (res kit.Result) {
 	pl, cp := b.Len(), b.Cap()
 	if pl != c.A+c.B || cp < pl {
 		res.Failf("fixture: after Append Len %d Cap %d, want Len %d", pl, cp, c.A+c.B)
+		return
+	}
+	if m := kit.RawMismatch(b, kit.HdrOf(b)); m != "" {
+		res.Failf("fixture: buffer grown by Append (%d + %d samples, %d ch): %s", c.A, c.B, C, m)
 		return
 	}
 	if cp%C != 0 {
@@ -281,7 +288,7 @@ func FP(c *Case) uint64 {
 	return h.Sum()
 }
 
-var names = kit.BuiltinNames()
+var names = append(kit.BuiltinNames(), kit.SomeNamed...)
 
 func Gen(t *rapid.T) *Case {
 	c := &Case{T: rapid.SampledFrom(names).Draw(t, "type"), C: kit.GenChannels(t)}
@@ -306,7 +313,7 @@ func Gen(t *rapid.T) *Case {
 	if rapid.IntRange(0, 3).Draw(t, "overSel") == 0 {
 		c.Over = rapid.IntRange(1, 3).Draw(t, "over")
 	}
-	if c.C >= 2 && rapid.IntRange(0, 4).Draw(t, "grownSel") == 0 {
+	if c.C >= 2 && c.C <= 64 && rapid.IntRange(0, 4).Draw(t, "grownSel") == 0 {
 		// buffer produced by a growing Append with partial frames
 		c.Fix, c.Kr = 3, 0
 		c.A = rapid.IntRange(0, c.C-1).Draw(t, "pre")
